@@ -41,6 +41,9 @@ case "${1:-}" in
     build "$BIN/vmon-race" -race
     (cd "$REPO" && go build -o "$BIN/" ./cmd/... ) || exit 2
     echo "setup ok"; exit 0 ;;
+  selftest)
+    # unit tests of the harness's own oracles (vectors for the CSS reader, URL classifier, balance checker)
+    (cd "$VERIF/harness" && go test $MODFLAG ./internal/...) ; exit $? ;;
   replay)
     f="${2:?replay file}"
     prop=$(python3 -c "import json,sys;print(json.load(open(sys.argv[1]))['property'])" "$f")
